@@ -44,7 +44,7 @@ def run(v):
     cov = merge_cov(cov, run_tree_groups(v, SEED + 1980, 12 if q else 60, 4 if q else 5, 1500 if q else 12000, ("adj", "acmd"),
                                          tsig, ledger_every=3 if q else 1, driver_n=4000 if q else 100000), "tree_groups")
     # beyond the acceptors: adjacent groups inside adjacent subcommands / inside choices - judged by the ledger protocol
-    cov.update(run_protocol_only(v, D.nested_adj_family(SEED + 193, 12), 6000 if q else 100000, "C19n"))
+    cov.update(run_protocol_only(v, D.nested_adj_family(SEED + 193, 16), 8000 if q else 100000, "C19n", phrases=True))
     cov["rule"] = ("group shapes {flag + 2..3 positionals, flag + two named arguments + optional switch} under one/opt/many among "
                    "0..2 other options and a trailing repeated positional; all lines up to maxlen: blocks at every position, "
                    "split by foreign items, cut short, `--`/help inside and next to blocks; AdjContiguous/CutKills checked by TLC; the same "
